@@ -8,16 +8,37 @@ SPEC = {
                       "C19_insert_or_replace_terminates", "C19_remove_key_terminates",
                       "C19_remove_value_terminates", "C19_reserve_terminates", "C19_value_terminates",
                       "C19_every_history_runs"],
-    "partial_theorems": [],
+    "partial_theorems": ["C19_values_terminates_partial"],
     "counterexamples": ["C19_tombstone_counterexample"],
     "driver": "collmodel",
     "harness_bin": "harness_coll",
-    "level": "proof",
-    "level_text": "",
-    "level_note": "",
+    "level": "other",
+    "level_text": ("Lean 4 theorems over a concrete fuel-indexed model of MultiMapImpl (slot array Empty/Valid/Deleted, exact "
+                   "probing, 15/16 and 7/16 load factors, rehash grow / shrink / same-capacity no-op, len-underflow and %0 as panics) "
+                   "mirroring multi_map.rs with the proposed fix C19-insert-or-replace-wrap. FULL (C19_mutators_terminate and the "
+                   "per-operation theorems): for an arbitrary hash function and EVERY finite history of insert / insert_or_replace "
+                   "(any predicate) / remove_key / remove_value / reserve from the empty map, each further operation, including every "
+                   "rehash loop it runs, returns ok for every fuel >= 6*capacity+200 (terminates, no panic), via the inductive "
+                   "invariant len = #Valid slots and len <= max_len (C19_inv_reachable); every history runs to completion "
+                   "(C19_every_history_runs); a single MultiMapIterator::next (value / contains) terminates on any table "
+                   "(C19_value_terminates). PARTIAL (C19_values_terminates_partial): draining iter_key (values / values_count / "
+                   "contains_value, used by index search) terminates on every table where the slot before the key's home does not "
+                   "hold the key; that this holds after every history is argued (load limit) but not machine-checked. COUNTEREXAMPLE "
+                   "(C19_tombstone_counterexample): on the pinned code the 65th insert_or_replace after 64 insert/remove cycles "
+                   "diverges for every fuel (general divergence lemma + decide +kernel fact about the reachable 64-tombstone table). "
+                   "Tie: slot-level differential stream on the real MultiMapStorage<u64,u64> (hook H2-coll: per-op state/key/value dump, "
+                   "len, capacity, iteration order) + stable_hash stream + query-level stream on DbMemory (alias and indexed-value "
+                   "churn) with a per-call watchdog (worker process killed after 3 s / 10 s) as the termination oracle."),
+    "level_note": ("Category other because one statement (whole-iteration termination of iter_key) is only partial and graph unlink "
+                   "loops / searches / storage loops are outside this group's model (see C08, C14, C17, C01). Trusted: Lean kernel; the "
+                   "hand-written model being faithful (validated per slot by the mm stream when hook H2-coll is in the tree, otherwise "
+                   "only at query level); watchdog time bound as the meaning of 'never returns'; u64 arithmetic modelled on Nat "
+                   "(capacity*15 does not overflow for capacities < 2^60)."),
     "technique": "Lean 4: inductive invariant over all operation histories of a fuel-indexed concrete model of the open-addressing multimap + differential correspondence (slot-level) + per-call watchdog",
     "design_ref": "DESIGN.md §6 C19",
-    "assumptions": [],
+    "assumptions": ["storage reads/writes of the three DbVecs succeed (I/O errors not modelled)",
+                    "capacity * 15 < 2^64", "hash function arbitrary but fixed; keys compared by ==",
+                    "fix C19-insert-or-replace-wrap applied (on the pinned code the property is false: counterexample theorem + corpus/C19)"],
     "quick": {"extra_args": []},
     "thorough": {"extra_args": []},
     "compare": "lines",
